@@ -62,8 +62,12 @@ class World:
         live = dict(start=now - 1000, duration=("hours", 100))
         self.root = p.root("root", **live)
         self.aa = p.issue(self.root, "aa", issue=sc.split_groups([36, 37, 638, 99], rng, 1), **live)
-        self.at1 = p.issue(self.aa, app=[36, 37, 638, 99], **live)
-        self.at2 = p.issue(self.aa, app=[36, 37], **live)
+        # appPermissions entries with and without Service Specific Permissions (authorisation is by ITS-AID)
+        self.at1 = p.issue(self.aa, app=[36, 37, 638, 99], ssp=rng, **live)
+        self.at2 = p.issue(self.aa, app=[36, 37], ssp=rng, **live)
+        # the RECEIVER's own authorization ticket (held in own_certificates by some receiver configurations): its
+        # digest is public -- it is in every packet the receiver sends -- so forged packets may name it as signer
+        self.at_own = p.issue(self.aa, app=[36, 37, 638, 99], **live)
         self.eroot = p.root("evil-root", **live)
         self.eaa = p.issue(self.eroot, "evil-aa", issue=[sc.perm_all(1)], **live)
         self.eat = p.issue(self.eaa, app=[36, 37, 638, 99], **live)
@@ -79,8 +83,8 @@ class World:
         self.at_xaa = p.issue(self.aa_exp, app=[36, 37], **live)
         self.A = sc.Abs()
         self.A.register_backend(p.backend)
-        for c in (self.root, self.aa, self.at1, self.at2, self.eroot, self.eaa, self.eat, self.forged, self.at_exp,
-                  self.aa_exp, self.at_xaa):
+        for c in (self.root, self.aa, self.at1, self.at2, self.at_own, self.eroot, self.eaa, self.eat, self.forged,
+                  self.at_exp, self.aa_exp, self.at_xaa):
             self.A.cert(c.certificate)
         self.base = []       # (kind, frame)
 
@@ -88,10 +92,13 @@ class World:
         """genuine frames from two real sender Routers (CAM with certificate / digest, DENM, VAM, generic)"""
         s1 = sc.RouterStation(self.pki.backend, 1, [self.root], [self.aa], [], own=[self.at1])
         s2 = sc.RouterStation(self.pki.backend, 2, [self.root], [self.aa], [], own=[self.at2], lat=415000300, lon=21000300)
+        # a third sender signing with the receiver's own ticket: what the medium hands back to a station (echo) or a
+        # second unit of the same vehicle sends
+        s3 = sc.RouterStation(self.pki.backend, 3, [self.root], [self.aa], [], own=[self.at_own], lat=415000200, lon=21000200)
         kinds = ["cam", "cam", "denm", "other", "vam", "cam"]
         for i in range(n):
             clock.advance(self.rng.choice([50, 100, 400, 1100]))
-            snd = s1 if (i % 3) else s2
+            snd = s3 if i % 5 == 4 else (s1 if (i % 3) else s2)
             kind = kinds[i % len(kinds)]
             if snd is s2 and kind in ("other", "vam"):
                 kind = "cam"
@@ -138,13 +145,45 @@ def mutate(ctx, w, frame):
         return "unsecured", bytes([0x11]) + hdr[1:] + plain
     if r < 0.54:
         return rng.choice([("nh-any", bytes([0x10]) + frame[1:]), ("bad-version", bytes([0x22]) + frame[1:])])
+    if r < 0.585:
+        # NH = SECURED_PACKET, but the Ieee1609Dot2Data content is not signedData: no signer, no signature at all
+        plain = sc.decode_signed(body)[0]["tbsData"]["payload"]["data"]["content"][1]
+        ch = rng.choice(["unsecuredData", "unsecuredData", "unsecuredData-junk", "encryptedData", "signedCertificateRequest"])
+        try:
+            if ch == "unsecuredData":
+                env = sc.make_envelope("unsecuredData", plain)            # the very bytes a genuine packet delivers
+            elif ch == "unsecuredData-junk":
+                env = sc.make_envelope("unsecuredData", bytes(rng.randrange(256) for _ in range(rng.choice([0, 3, 40]))))
+            elif ch == "encryptedData":
+                env = sc.make_envelope("encryptedData", {
+                    "recipients": [("pskRecipInfo", bytes(rng.randrange(256) for _ in range(8)))],
+                    "ciphertext": ("aes128ccm", {"nonce": bytes(12), "ccmCiphertext": plain})})
+            else:
+                env = sc.make_envelope("signedCertificateRequest", plain[:rng.choice([0, 8, len(plain)])])
+            return "envelope:" + ch, hdr + env
+        except Exception:  # noqa: BLE001 - not encodable
+            return "genuine", frame
+    if r < 0.64:
+        # Basic Header fields OUTSIDE the signature (reserved, lifetime, remaining hop limit) of a genuine packet: the
+        # packet still verifies; what the GeoNetworking layer does with it afterwards (e.g. RHL above the Common Header's
+        # MHL -> DecapError) is not the gate's business -- and must leave nothing behind for the next packet
+        f = rng.choice(["rhl", "rhl", "rhl", "lt", "reserved"])
+        b = bytearray(hdr)
+        if f == "rhl":
+            b[3] = rng.choice([0, 1, 2, 9, 10, 11, 128, 255])
+        elif f == "lt":
+            b[2] = rng.choice([0, 1, 0x1A, 0xFF, rng.randrange(256)])
+        else:
+            b[1] = rng.randrange(1, 256)
+        return "bh-" + f, bytes(b) + body
     # field-level mutation of the decoded structure
     sd = copy.deepcopy(sc.decode_signed(body)[0])
     hi = sd["tbsData"]["headerInfo"]
     choice = rng.choice(["payload", "psid", "gentime", "hdr-add", "signer-digest-unknown", "signer-other-at", "signer-swap",
                          "r", "s", "s-malleate", "cert-field", "attacker-sig", "attacker-sig-own-cert", "attacker-digest",
                          "selfmade-chain", "forged-ticket", "resigned-genuine", "signer-self", "two-certs", "sig-format",
-                         "expired-ticket", "expired-ticket-backdated", "ticket-under-expired-aa"])
+                         "expired-ticket", "expired-ticket-backdated", "ticket-under-expired-aa",
+                         "signer-own-ticket", "signer-own-ticket", "signer-ca-digest"])
     at_of = {sc.hid8(w.at1.certificate): w.at1, sc.hid8(w.at2.certificate): w.at2}
     if sd["signer"][0] == "digest":
         genuine_at = at_of.get(bytes(sd["signer"][1]))
@@ -247,6 +286,25 @@ def mutate(ctx, w, frame):
         sd["signer"] = ("certificate", [w.at_xaa.certificate, w.aa_exp.certificate][:rng.choice([1, 1, 2])])
     elif choice == "signer-self":
         sd["signer"] = ("self", None)
+    elif choice == "signer-own-ticket":
+        # names the RECEIVER's own ticket (a public digest) as signer; the signature is somebody else's or garbage
+        sg = rng.choice(["keep", "attacker", "attacker", "garbage", "other-genuine"])
+        if sg == "attacker":
+            resign(w, sd, w.eat.key_id)
+        elif sg == "garbage":
+            sd["signature"] = ("ecdsaNistP256Signature", {"rSig": ("x-only", bytes(rng.randrange(256) for _ in range(32))),
+                                                          "sSig": bytes(rng.randrange(256) for _ in range(32))})
+        elif sg == "other-genuine" and genuine_at is not None:
+            hi["generationTime"] = hi.get("generationTime", 0) + 1
+            resign(w, sd, genuine_at.key_id)
+        sd["signer"] = rng.choice([("digest", w.at_own.as_hashedid8()), ("digest", w.at_own.as_hashedid8()),
+                                   ("certificate", [w.at_own.certificate])])
+    elif choice == "signer-ca-digest":
+        # the digest names a certificate the receiver holds in ANOTHER dictionary (authority / root), not a ticket
+        ca = rng.choice([w.aa, w.root])
+        if rng.random() < 0.5:
+            resign(w, sd, ca.key_id if rng.random() < 0.5 else w.eat.key_id)
+        sd["signer"] = ("digest", ca.as_hashedid8())
     elif choice == "two-certs":
         if genuine_at is not None:
             sd["signer"] = ("certificate", [genuine_at.certificate, w.aa.certificate])
@@ -340,37 +398,64 @@ def judge(ctx, oracle, enabled, frame, gate, inds, case, kind):
 
 
 def receiver_config(rng):
+    """security configuration of the receiver + `own`: 0 = the receiver holds no own ticket, 1 = it holds its own
+    authorization ticket (own_certificates only), 2 = the own ticket is also among the known tickets"""
+    own = rng.choice([0, 0, 1, 1, 2])
     r = rng.random()
     if r < 0.75:
-        return dict(enabled=True, has_verify=True, has_sign=rng.random() < 0.7)
+        return dict(enabled=True, has_verify=True, has_sign=rng.random() < 0.7, own=own)
     if r < 0.87:
-        return dict(enabled=False, has_verify=True, has_sign=True)
+        return dict(enabled=False, has_verify=True, has_sign=True, own=own)
     if r < 0.94:
-        return dict(enabled=True, has_verify=False, has_sign=True)
-    return dict(enabled=False, has_verify=False, has_sign=False)
+        return dict(enabled=True, has_verify=False, has_sign=True, own=own)
+    return dict(enabled=False, has_verify=False, has_sign=False, own=0)
+
+
+class InjectedFault(Exception):
+    """raised by the harness in place of the GeoNetworking processing behind the gate (fault injection)"""
+
+
+def router_kw(cfg):
+    return {k: cfg[k] for k in ("enabled", "has_verify", "has_sign") if k in cfg}
 
 
 def run_sequence(ctx, w, clock, frames, cfg, preload, seq_id):
     """frames: list of (kind, frame).  Returns (model lines, real lines)"""
     A = w.A
     ats = list(preload) if isinstance(preload, (list, tuple)) else ([w.at1] if preload else [])
-    R = sc.RouterStation(w.pki.backend, 9, [w.root], [w.aa], ats, lat=415000100, lon=21000100, **cfg)
+    own_mode = cfg.get("own", 0) if getattr(w, "at_own", None) is not None else 0
+    own = [w.at_own] if own_mode else []
+    if own_mode == 2 and all(a.as_hashedid8() != w.at_own.as_hashedid8() for a in ats):
+        ats = ats + [w.at_own]
+    R = sc.RouterStation(w.pki.backend, 9, [w.root], [w.aa], ats, own=own, lat=415000100, lon=21000100, **router_kw(cfg))
     R.set_position(clock.ms)
-    oracle = Oracle([w.root], [w.aa], ats)
+    # the receiver knows its own ticket: a genuine packet signed with it (echo) would be authentic
+    oracle = Oracle([w.root], [w.aa], ats + own)
     pre = sc.new_station_lines(A, 1, [w.root], [w.aa], ats, cfg["has_sign"])
+    pre += [f"addown 1 {A.cert(c.certificate)} {A.cert(w.aa.certificate)}" for c in own]
+    if own:
+        ctx.cover(f"receiver_own_ticket_mode_{own_mode}")
     items = []
+    prev_exc = False
     for j, (kind, frame) in enumerate(frames):
         clock.advance(ctx.rng.choice([1, 20, 150, 600]))
         R.set_position(clock.ms)
         tok = sc.frame_tokens(A, frame)
         oracle.observe(frame)
-        out, gate, inds, conf, exc = R.receive(frame)
+        fault = InjectedFault("upper layer fails") if kind.endswith("+fault") else None
+        out, gate, inds, conf, exc = R.receive(frame, fault=fault)
         case = {"kind": "sequence", "id": seq_id, "frames": [f.hex() for _, f in frames[:j + 1]],
                 "kinds": [k for k, _ in frames[:j + 1]], "cfg": cfg, "root": w.root.encode().hex(),
-                "aa": w.aa.encode().hex(), "ats": [a.encode().hex() for a in ats]}
+                "aa": w.aa.encode().hex(), "ats": [a.encode().hex() for a in ats],
+                "own": [a.encode().hex() for a in own]}
         judge(ctx, oracle, cfg["enabled"], frame, gate, inds, case, kind)
         ctx.evals()
-        ctx.cover("mut_" + kind)
+        ctx.cover("mut_" + kind.replace("+fault", ""))
+        if exc is not None and gate:
+            ctx.cover("raised_behind_the_gate_" + type(exc).__name__)
+        if j and frame[0] & 0x0F == 1 and prev_exc:
+            ctx.cover("unsecured_right_after_a_raising_packet")
+        prev_exc = exc is not None
         ctx.cover("out_" + (out if not out.startswith("raise") else "raise"))
         if conf is not None:
             ctx.cover("report_" + conf.report.name)
@@ -389,7 +474,7 @@ def run_sequence(ctx, w, clock, frames, cfg, preload, seq_id):
             else:
                 real = "drop:?"
         else:
-            real = "raise:parse" if tok == "P" else out
+            real = "raise:parse" if tok in ("P", "E") else out
         items.append((f"gate 1 {int(cfg['enabled'])} {int(cfg['has_verify'])} {tok}", real + " " + R.dump(A)))
         if inds:
             ctx.cover("indications")
@@ -412,6 +497,22 @@ def compare(ctx, batches):
         pos += len(ls)
 
 
+def with_faults_and_probes(rng, w, frames):
+    """fault + sequence: (1) for some frames the processing BEHIND the gate raises (injected: kind `…+fault`; natural:
+    the `bh-rhl` mutants whose hop limit exceeds the Common Header's MHL) -- the receive path is left through an
+    exception; (2) an UNSECURED packet right after such a frame (and after a few others): nothing an earlier packet
+    left behind -- verified or not, completed or aborted -- may open the gate for it"""
+    out = []
+    for kind, fr in frames:
+        faulty = rng.random() < 0.07
+        out.append((kind + "+fault" if faulty else kind, fr))
+        if rng.random() < (0.8 if faulty or kind.startswith("bh-") else 0.06):
+            _, base = rng.choice(w.base)
+            plain = sc.decode_signed(base[4:])[0]["tbsData"]["payload"]["data"]["content"][1]
+            out.append(("unsecured", bytes([0x11]) + base[1:4] + plain))
+    return out
+
+
 def check_sequences(ctx, w, clock, n_seq, tag, extra_batches=()):
     batches = list(extra_batches)
     for s in range(n_seq):
@@ -426,6 +527,7 @@ def check_sequences(ctx, w, clock, n_seq, tag, extra_batches=()):
         ctx.rng.shuffle(frames)
         if ctx.rng.random() < 0.3:
             frames += [frames[ctx.rng.randrange(len(frames))] for _ in range(3)]   # replays
+        frames = with_faults_and_probes(ctx.rng, w, frames)
         cfg = receiver_config(ctx.rng)
         lines, reals = run_sequence(ctx, w, clock, frames, cfg, ctx.rng.random() < 0.3, f"{tag}{s}")
         batches.append((lines, reals, f"{tag}{s}"))
@@ -818,8 +920,10 @@ class RecordedWorld:
         self.root = cert(case["root"])
         self.aa = cert(case["aa"], self.root)
         self.ats = [cert(h, self.aa) for h in case.get("ats", [])]
+        own = [cert(h, self.aa) for h in case.get("own", [])]
+        self.at_own = own[0] if own else None
         self.A = sc.Abs()
-        for c in [self.root, self.aa] + self.ats:
+        for c in [self.root, self.aa] + self.ats + own:
             self.A.cert(c.certificate)
 
 
@@ -920,6 +1024,9 @@ def search(ctx):
         ctx.model_ok = ok
 
 
+_SCENARIO_WORLD = None
+
+
 def replay_case(case):
     """a saved sequence: concrete frames need the keys of their world, so the case is regenerated structurally:
     kinds 'scenario' are self-contained constructions"""
@@ -929,20 +1036,37 @@ def replay_case(case):
     router_mod.Timer = sc.NoTimer
     with rs.VClock(T0) as clock:
         import random
-        w = World(random.Random(7))
-        w.make_base(clock, 6)
+        global _SCENARIO_WORLD
+        if _SCENARIO_WORLD is None:          # one world (keys, six genuine frames) for all scenario cases of a process
+            _SCENARIO_WORLD = World(random.Random(7))
+            _SCENARIO_WORLD.make_base(clock, 6)
+        w = _SCENARIO_WORLD
+        clock.advance(20_000)
 
         class C:   # minimal ctx for mutate()
             rng = random.Random(case.get("seed", 1))
         enabled = case.get("enabled", True)
-        R = sc.RouterStation(w.pki.backend, 9, [w.root], [w.aa], [], lat=415000100, lon=21000100, enabled=enabled)
-        R.set_position(clock.ms)
-        oracle = Oracle([w.root], [w.aa], [])
         what = case["scenario"]
+        own = [w.at_own] if what.startswith("own-ticket") else []
+        R = sc.RouterStation(w.pki.backend, 9, [w.root], [w.aa], [], own=own, lat=415000100, lon=21000100, enabled=enabled)
+        R.set_position(clock.ms)
+        oracle = Oracle([w.root], [w.aa], own)
+
+        def check(fr, kind, note):
+            oracle.observe(fr)
+            out, gate, inds, conf, exc = R.receive(fr)
+            if gate or inds:
+                ok, why, _ = oracle.authentic(fr) if fr[0] & 0x0F == 2 else (False, "unsecured", None)
+                if not ok:
+                    bad.append(f"{what}: {kind} frame {note}delivered ({why})")
+            return out
+
         for kind, base in w.base:
             sd = copy.deepcopy(sc.decode_signed(base[4:])[0])
+            plain = sd["tbsData"]["payload"]["data"]["content"][1]
+            unsec = bytes([0x11]) + base[1:4] + plain
             if what == "unsecured":
-                fr = bytes([0x11]) + base[1:4] + sd["tbsData"]["payload"]["data"]["content"][1]
+                fr = unsec
             elif what == "attacker-chain":
                 resign(w, sd, w.eat.key_id)
                 sd["signer"] = ("certificate", [w.eat.certificate])
@@ -951,7 +1075,7 @@ def replay_case(case):
                 sd["signer"] = ("digest", b"\x09" * 8)
                 fr = base[:4] + reencode(sd)
             elif what == "payload-bit":
-                pl = bytearray(sd["tbsData"]["payload"]["data"]["content"][1])
+                pl = bytearray(plain)
                 pl[-1] ^= 1
                 sd["tbsData"]["payload"]["data"]["content"] = ("unsecuredData", bytes(pl))
                 fr = base[:4] + reencode(sd)
@@ -960,6 +1084,37 @@ def replay_case(case):
                 del c["signature"]
                 sd["signer"] = ("certificate", [c])
                 fr = base[:4] + reencode(sd)
+            elif what == "own-ticket-signer":
+                # forged packets naming the RECEIVER's own ticket (digest, then certificate), attacker / stale signature
+                pl = bytearray(plain)
+                pl[-1] ^= 1
+                sd["tbsData"]["payload"]["data"]["content"] = ("unsecuredData", bytes(pl))
+                for signer in (("digest", w.at_own.as_hashedid8()), ("certificate", [w.at_own.certificate])):
+                    for key in (None, w.eat.key_id):
+                        sd2 = copy.deepcopy(sd)
+                        if key is not None:
+                            resign(w, sd2, key)
+                        sd2["signer"] = signer
+                        check(base[:4] + reencode(sd2), kind, f"naming the receiver's own ticket ({signer[0]}) ")
+                continue
+            elif what == "unsigned-envelope":
+                # NH = SECURED_PACKET + Ieee1609Dot2Data whose content is not signedData
+                for ch, content in (("unsecuredData", plain), ("signedCertificateRequest", plain),
+                                    ("encryptedData", {"recipients": [("pskRecipInfo", bytes(8))],
+                                                       "ciphertext": ("aes128ccm", {"nonce": bytes(12), "ccmCiphertext": plain})})):
+                    check(base[:4] + sc.make_envelope(ch, content), kind, f"with envelope content {ch} ")
+                continue
+            elif what in ("raise-then-unsecured", "rhl-then-unsecured"):
+                # a GENUINE packet whose processing behind the gate raises (injected fault / hop limit above the MHL),
+                # then an unsecured packet on the same receive path
+                oracle.observe(base)
+                if what.startswith("rhl"):
+                    R.receive(base[:3] + b"\xff" + base[4:])
+                else:
+                    R.receive(base, fault=InjectedFault("upper layer fails"))
+                check(unsec, kind, "(unsecured, right after a genuine packet whose processing raised) ")
+                R.receive(base)
+                continue
             else:
                 raise Infra(f"unknown scenario {what}")
             oracle.observe(fr)
@@ -995,15 +1150,17 @@ def replay_sequence(case):
             root = cert(case["root"])
             aa = cert(case["aa"], root)
             ats = [cert(h, aa) for h in case["ats"]]
+            own = [cert(h, aa) for h in case.get("own", [])]
             cfg = case["cfg"]
-            R = sc.RouterStation(PythonECDSABackend(), 9, [root], [aa], ats, lat=415000100, lon=21000100, **cfg)
-            oracle = Oracle([root], [aa], ats)
+            R = sc.RouterStation(PythonECDSABackend(), 9, [root], [aa], ats, own=own, lat=415000100, lon=21000100,
+                                 **router_kw(cfg))
+            oracle = Oracle([root], [aa], ats + own)
             for k, fh in zip(case["kinds"], case["frames"]):
                 clock.advance(50)
                 R.set_position(clock.ms)
                 fr = bytes.fromhex(fh)
                 oracle.observe(fr)
-                out, gate, inds, conf, exc = R.receive(fr)
+                out, gate, inds, conf, exc = R.receive(fr, fault=InjectedFault("upper layer fails") if k.endswith("+fault") else None)
                 judge(v, oracle, cfg["enabled"], fr, gate, inds, case, k)
     finally:
         router_mod.Timer = threading.Timer
